@@ -1,11 +1,38 @@
 import GrinVerif.Model.Crash
+import GrinVerif.Model.CrashCompact
 import GrinVerif.Lemmas.CrashBasic
+import GrinVerif.Lemmas.CrashPath
+import GrinVerif.Lemmas.CrashRecover
+import GrinVerif.Lemmas.CrashSteps
+import GrinVerif.Lemmas.CrashExt
+import GrinVerif.Lemmas.CrashUnspent
+import GrinVerif.Lemmas.CrashWindow
+import GrinVerif.Lemmas.CrashCompactL
+import GrinVerif.Lemmas.CrashReorg
 /-! # C09 — a crash at any persistence step never bricks or corrupts the chain
 
-Theorems about the crash model (`Model/Crash.lean`). The property is FALSE of the unchanged
-code in three windows (and the model, which agrees with the real node on every enumerated crash
-point, says so): the negations are proved here with concrete kernel-checked witnesses; the
-positive statements are proved for the steps where recovery works. -/
+Theorems about the crash model (`Model/Crash.lean`, compaction: `Model/CrashCompact.lean`). The
+property is FALSE of the unchanged code in four windows (and the model, which agrees with the real
+node on every enumerated crash point, says so). This file says, for ALL chains (block table, old
+path, new block, bitmap-commitment function universally quantified; no size bound), at which crash
+points recovery works and at which it does not, and where the node lands:
+
+* plain extension (17 steps): `safe_prefix_all` (k ≤ 2, 5 ≤ k ≤ 11 → old tip), `header_torn_bricks_all`
+  (k = 3, 4 → does not open), `txhashset_window_violates_all` / `txhashset_window_exact` /
+  `txhashset_window_general` / `txhashset_window_to_genesis` / `txhashset_window_precommit_silent`
+  (12 ≤ k ≤ 16), `no_inputs_crash_safe`, `completed_extension_all` (k ≥ 17 → new block);
+* header reorganisation: `header_reorg_window_bricks_all`, `header_reorg_ends_ok_all`,
+  `header_reorg_equal_length_silent`; reorganising block: `block_reorg_header_window_bricks_all`,
+  `block_reorg_ends_ok_all`, `block_reorg_files_window_all`, `block_reorg_leaf_window_all`;
+* compaction (13 steps): `compaction_safe_steps_all`, `compaction_interrupted_first_all`,
+  `compaction_interrupted_again_all`; block on a compacted node: `compacted_safe_prefix_all`,
+  `compacted_window_bricks_all`, `compacted_window_lands_all`; `recoverC_conservative`;
+* concrete kernel-checked negation witnesses (`decide`) and non-vacuity examples for every
+  general theorem.
+
+What is NOT covered by a theorem: the property's clauses "the reopened state passes full
+validation" and "re-delivery reaches the uninterrupted head" (the model's `recover` returns the
+reopen outcome and head only; those clauses are evaluated on the real node by the harness). -/
 namespace GV.Props.C09
 open GV GV.Crash
 
@@ -125,5 +152,912 @@ theorem recover_consistent (bcf : Nat → Bool) (tbl : List BlkInfo) (path : Lis
 -- non-vacuity: the 8-block prefix of the witness chain
 example : recover bc tbl9 (consistent old8) = .ok 7 :=
   recover_consistent bc tbl9 old8 7 (by decide) (by decide)
+
+/-! ### Plain extension, every chain (task 1)
+
+`PlainExt tbl O b t`: in the block table `tbl` the stored path of the old tip is `O`, the stored
+path of the new block `b` is `O ++ [b]`, and the target `t` describes exactly this acceptance.
+No bound on the length or shape of the chain, on what the blocks spend or create, or on which
+heights commit to the bitmap. -/
+
+/-- **Characterisation of the safe durable states (all chains).** If the header files are consistent
+with `header_head` (equal counts; the data file holds the path of `header_head`), and the state
+agrees with the consistent state of `O` on the body head, the leaf set and the `O`-prefix of the
+output hash/data and kernel hash/data files (whatever was appended behind those prefixes), then
+`Chain::init` reopens on the tip of `O`. -/
+theorem recover_of_agrees_old (bcf : Nat → Bool) (tbl O : List BlkInfo) (d : Durable)
+    (hO : pathOf tbl (tbl.length + 1) (tipOf O) [] = some O)
+    (hh : HdrOk tbl d) (ha : AgreesOld O d) :
+    recover bcf tbl d = .ok (tipOf O) :=
+  recover_of_agrees bcf tbl O d hO hh ha
+
+/-- **Safe steps of a plain extension, all chains.** A process death before the header window
+(`k ≤ 2`) or between the header data append and the leaf-set rename (`5 ≤ k ≤ 11`) reopens on the
+old tip: appended-but-uncommitted header, output and kernel entries are ignored / truncated away. -/
+theorem safe_prefix_all (bcf : Nat → Bool) (tbl O : List BlkInfo) (b : BlkInfo) (t : Target)
+    (h : PlainExt tbl O b t) (k : Nat) (hk : k ≤ 2 ∨ (5 ≤ k ∧ k ≤ 11)) :
+    recover bcf tbl (crashAfter t (consistent O) blockSteps k) = .ok (tipOf O) := by
+  rw [crashAfter_ext t O b h.newPath h.forkLen k]
+  apply recover_of_agrees bcf tbl O _ h.old
+  · exact extState_hdrOk tbl O b t h _ _ k (by omega)
+  · exact extState_agrees O b _ _ k (by omega)
+
+/-- **Completed acceptance, all chains.** After the last step (the final LMDB commit) the node
+reopens on the new block. -/
+theorem completed_extension_all (bcf : Nat → Bool) (tbl O : List BlkInfo) (b : BlkInfo) (t : Target)
+    (h : PlainExt tbl O b t) (hm : t.movesHead = true) (k : Nat) (hk : 17 ≤ k) :
+    recover bcf tbl (crashAfter t (consistent O) blockSteps k) = .ok b.id := by
+  rw [crashAfter_ext t O b h.newPath h.forkLen k, hm]
+  have := recover_of_agrees bcf tbl (O ++ [b]) (extState O b t.movesHHead true k)
+    (by rw [tipOf_snoc]; exact h.new) (extState_hdrOk tbl O b t h _ _ k (by omega))
+    (extState_agrees_new O b _ k hk)
+  rwa [tipOf_snoc] at this
+
+-- non-vacuity: the witness chain is a plain extension; the general theorems give its safe steps
+example : PlainExt tbl9 old8 (blk 8 [6]) tgt9 := ⟨by decide, by decide, by decide, by decide⟩
+example : recover bc tbl9 (crashAfter tgt9 (consistent old8) blockSteps 9) = .ok 7 :=
+  safe_prefix_all bc tbl9 old8 (blk 8 [6]) tgt9 ⟨by decide, by decide, by decide, by decide⟩ 9 (by omega)
+example : recover bc tbl9 (crashAfter tgt9 (consistent old8) blockSteps 17) = .ok 8 :=
+  completed_extension_all bc tbl9 old8 (blk 8 [6]) tgt9 ⟨by decide, by decide, by decide, by decide⟩ rfl 17 (by omega)
+
+/-! ### Header windows, every chain (task 3) -/
+
+/-- **Header MMR torn, all chains.** Plain extension killed after the header hash file was appended
+and before the header data file was (`k = 3, 4`): `Chain::init` fails, for every chain. -/
+theorem header_torn_bricks_all (bcf : Nat → Bool) (tbl O : List BlkInfo) (b : BlkInfo) (t : Target)
+    (h : PlainExt tbl O b t) (k : Nat) (hk : k = 3 ∨ k = 4) :
+    recover bcf tbl (crashAfter t (consistent O) blockSteps k) = .openFail .other := by
+  rw [crashAfter_ext t O b h.newPath h.forkLen k]
+  apply header_len_mismatch_bricks
+  rcases hk with rfl | rfl <;> simp [extState]
+
+/-- **Header reorganisation window, all chains.** While a header on another fork is being accepted
+(the header MMR is rewound to the fork point and re-extended on disk before the LMDB commit that
+moves `header_head`), a process death after the hash-file truncate and before that commit leaves
+files that do not match `header_head`: `Chain::init` fails. `k = 2, 4, 5` for every fork; `k = 3`
+whenever the new header path and the old one differ in length. -/
+theorem header_reorg_window_bricks_all (bcf : Nat → Bool) (tbl O N : List BlkInfo) (t : Target)
+    (h : HdrReorg tbl O N t) (k : Nat) (hk : k = 2 ∨ (k = 3 ∧ N.length ≠ O.length) ∨ k = 4 ∨ k = 5) :
+    recover bcf tbl (crashAfter t (consistent O) headerSteps k) = .openFail .other := by
+  rw [crashAfter_hdr t O k, h.newPath]
+  have h1 := h.lt_old
+  have h2 := h.lt_new
+  rcases hk with rfl | ⟨rfl, hne⟩ | rfl | rfl
+  · apply header_len_mismatch_bricks
+    simp [hdrState]; omega
+  · apply header_len_mismatch_bricks
+    simpa [hdrState] using hne
+  · apply header_len_mismatch_bricks
+    simp [hdrState]; omega
+  · apply recover_hdr_mismatch bcf tbl _ O (by simp [hdrState])
+    · simpa [hdrState] using h.old
+    · simp only [hdrState, Nat.le_refl, if_true]
+      intro heq
+      apply h.diverge
+      rw [← heq, List.getElem?_take_of_lt h1]
+
+/-- the same window in a block acceptance that reorganises the header chain (its first six steps
+are the header acceptance) -/
+theorem block_reorg_header_window_bricks_all (bcf : Nat → Bool) (tbl O N : List BlkInfo) (t : Target)
+    (h : HdrReorg tbl O N t) (k : Nat) (hk : k = 2 ∨ (k = 3 ∧ N.length ≠ O.length) ∨ k = 4 ∨ k = 5) :
+    recover bcf tbl (crashAfter t (consistent O) blockSteps k) = .openFail .other := by
+  rw [crashAfter_block_le6 t _ k (by omega)]
+  exact header_reorg_window_bricks_all bcf tbl O N t h k hk
+
+/-- **… and its ends, all chains.** Before the first file step, and after the commit that moves
+`header_head` (`k ≥ 6`), the node reopens on the old body head (the header chain is then on the
+new fork, the body chain still on the old one — the normal state of a header-first node). -/
+theorem header_reorg_ends_ok_all (bcf : Nat → Bool) (tbl O N : List BlkInfo) (t : Target)
+    (h : HdrReorg tbl O N t) (hm : t.movesHHead = true) (k : Nat) (hk : k ≤ 1 ∨ 6 ≤ k) :
+    recover bcf tbl (crashAfter t (consistent O) headerSteps k) = .ok (tipOf O) := by
+  rw [crashAfter_hdr t O k, h.newPath, hm]
+  apply recover_of_agrees bcf tbl O _ h.old _ (hdrState_agrees O N _ _ k)
+  rcases hk with hk | hk
+  · have e2 : ¬ 2 ≤ k := by omega
+    have e3 : ¬ 3 ≤ k := by omega
+    have e4 : ¬ 4 ≤ k := by omega
+    have e5 : ¬ 5 ≤ k := by omega
+    have e6 : ¬ (6 ≤ k) := by omega
+    exact ⟨by simp [hdrState, e2, e3, e4, e5], O, by simpa [hdrState, e6] using h.old,
+      by simp [hdrState, e4, e5]⟩
+  · have e3 : 3 ≤ k := by omega
+    have e5 : 5 ≤ k := by omega
+    exact ⟨by simp [hdrState, e3, e5], N, by simpa [hdrState, hk] using h.new,
+      by simp [hdrState, e5]⟩
+
+/-- **Model prediction (not among the enumerated scenarios): equal-length fork, `k = 3`.** When the
+new header path is exactly as long as the old one, the crash point "hash file on the new fork, data
+file still on the old" passes both checks of `Chain::init` (they read the data file only): the
+node opens on the old head with a header hash file that belongs to the other fork. -/
+theorem header_reorg_equal_length_silent (bcf : Nat → Bool) (tbl O N : List BlkInfo) (t : Target)
+    (h : HdrReorg tbl O N t) (hlen : N.length = O.length) :
+    let d := crashAfter t (consistent O) headerSteps 3
+    recover bcf tbl d = .ok (tipOf O) ∧ d.hdrHash ≠ d.hdrData := by
+  simp only
+  rw [crashAfter_hdr t O 3, h.newPath]
+  refine ⟨?_, ?_⟩
+  · apply recover_of_agrees bcf tbl O _ h.old _ (hdrState_agrees O N _ _ 3)
+    exact ⟨by simp [hdrState, hlen], O, by simpa [hdrState] using h.old, by simp [hdrState]⟩
+  · simp only [hdrState]
+    intro heq
+    apply h.diverge
+    simp at heq
+    rw [heq]
+
+-- non-vacuity: the witness header reorganisation (header b9 on b5 against header head b7)
+example : HdrReorg tblFork old8 tgtFork.newPath tgtFork :=
+  ⟨by decide, by decide, rfl, by decide, by decide, by decide⟩
+example : recover bc tblFork (crashAfter tgtFork (consistent old8) headerSteps 3) = .openFail .other :=
+  header_reorg_window_bricks_all bc tblFork old8 tgtFork.newPath tgtFork
+    ⟨by decide, by decide, rfl, by decide, by decide, by decide⟩ 3 (Or.inr (Or.inl ⟨rfl, by decide⟩))
+-- an equal-length fork: header b9' on b6 (same height as the header head b7, more work)
+def tblEq : List BlkInfo := old8 ++ [{ id := 9, parent := some 6, work := 20, outs := [9], ins := [] }]
+def tgtEq : Target :=
+  { newPath := tblEq.take 7 ++ [{ id := 9, parent := some 6, work := 20, outs := [9], ins := [] }],
+    forkLen := 7, movesHHead := true, movesHead := false }
+example : HdrReorg tblEq old8 tgtEq.newPath tgtEq ∧ tgtEq.newPath.length = old8.length :=
+  ⟨⟨by decide, by decide, rfl, by decide, by decide, by decide⟩, by decide⟩
+
+/-! ### The txhashset window, every chain (task 2)
+
+`lost O b` = the leaves of the old unspent set that are missing from the leaf set of `O ++ [b]`,
+i.e. what `b` spends. `BlocksWF O`: no block of `O` lists an output or an input twice. Block ids
+on a stored path are pairwise distinct (`pathOf_ids_nodup`, proved — a repeated id would be a parent
+cycle), so every leaf `(creating block, output id)` is created once. -/
+
+/-- every leaf of a well-formed plain extension is created exactly once -/
+theorem plainExt_leaves_nodup (tbl O : List BlkInfo) (b : BlkInfo) (t : Target) (h : PlainExt tbl O b t)
+    (hwf : BlocksWF O) (hbo : b.outs.Nodup) : (leavesOf (O ++ [b])).Nodup := by
+  apply leavesOf_nodup _ (pathOf_ids_nodup tbl _ b.id _ h.new)
+  intro x hx
+  rcases List.mem_append.1 hx with hx | hx
+  · exact hwf.outs x hx
+  · simp at hx; subst hx; exact hbo
+
+/-- **Coinbase-only blocks are crash-safe, all chains.** A block that spends nothing reopens on the
+old tip at every crash point before the final commit except the header window `k = 3, 4`: its leaf
+set only adds leaves beyond the old output MMR size, which the rewind drops. -/
+theorem no_inputs_crash_safe (bcf : Nat → Bool) (tbl O : List BlkInfo) (b : BlkInfo) (t : Target)
+    (h : PlainExt tbl O b t) (hins : b.ins = []) (k : Nat) (hk : k < 17) (hk3 : k ≠ 3) (hk4 : k ≠ 4) :
+    recover bcf tbl (crashAfter t (consistent O) blockSteps k) = .ok (tipOf O) := by
+  by_cases hle : k ≤ 11
+  · exact safe_prefix_all bcf tbl O b t h k (by omega)
+  · have h12 : 12 ≤ k := by omega
+    rw [crashAfter_ext t O b h.newPath h.forkLen k]
+    have hd := extState_window O b t.movesHHead t.movesHead k h12 (by omega)
+    rw [recover_of_hdrOk bcf tbl _ (extState_hdrOk tbl O b t h _ _ k (by omega)), hd.1]
+    apply fallback_stop bcf tbl _ _ _ _ O h.old
+    right
+    apply validAt_true_of bcf _ [] O (extState_files O b _ _ k O [] (by simp))
+    intro l
+    rw [hd.2]
+    simp only [applyU, hins, List.foldl_nil, List.mem_append, List.not_mem_nil, or_false]
+    constructor
+    · intro hl; exact ⟨unspentOf_subset_leaves O l hl, Or.inl hl⟩
+    · rintro ⟨hlO, hl | hl⟩
+      · exact hl
+      · exfalso
+        -- a leaf of `b` cannot have been created on `O`: `b.id` is not an id of `O`
+        have hids := pathOf_ids_nodup tbl _ b.id _ h.new
+        rw [List.map_append, List.nodup_append] at hids
+        obtain ⟨x, hx, hxid, _⟩ := (mem_leavesOf O l).1 hlO
+        have : l.1 = b.id := by
+          simp only [List.mem_map] at hl
+          obtain ⟨o, _, rfl⟩ := hl; rfl
+        exact hids.2.2 x.id (List.mem_map.2 ⟨x, hx, rfl⟩) b.id (by simp) (by rw [hxid, this])
+
+/-- **The txhashset window violates the property, all chains.** If `b` spends at least one output
+that is unspent on the old path and the old tip's header commits to the bitmap, then a process
+death after the leaf-set rename and before the final commit (`12 ≤ k ≤ 16`) makes the node reopen
+on a block that is NEITHER the old tip NOR the new block: it is a strict ancestor of the old tip
+(blocks are forgotten; re-delivering `b` alone cannot restore the head). -/
+theorem txhashset_window_violates_all (bcf : Nat → Bool) (tbl O : List BlkInfo) (b : BlkInfo) (t : Target)
+    (h : PlainExt tbl O b t) (h2 : 2 ≤ O.length) (hwf : BlocksWF O) (hbo : b.outs.Nodup)
+    (hspend : ∃ o ∈ b.ins, ∃ l ∈ unspentOf O, l.2 = o)
+    (hbc : bcf (O.length - 1) = true) (k : Nat) (hk : 12 ≤ k ∧ k ≤ 16) :
+    ∃ a, recover bcf tbl (crashAfter t (consistent O) blockSteps k) = .ok a ∧
+      a ≠ tipOf O ∧ a ≠ b.id ∧ a ∈ O.dropLast.map (·.id) := by
+  have hn := plainExt_leaves_nodup tbl O b t h hwf hbo
+  have hnO : (leavesOf O).Nodup := by
+    rw [leavesOf_append] at hn; exact (List.nodup_append.1 hn).1
+  obtain ⟨l, hl⟩ := lost_ne_nil O b hnO hspend
+  rw [crashAfter_ext t O b h.newPath h.forkLen k]
+  have hd := extState_window O b t.movesHHead t.movesHead k hk.1 hk.2
+  have hw := extState_inWindow O b t.movesHHead t.movesHead k hk.1
+  rw [recover_of_hdrOk bcf tbl _ (extState_hdrOk tbl O b t h _ _ k (by omega)), hd.1]
+  have hOne : O ≠ [] := by intro e; rw [e] at h2; simp at h2
+  obtain ⟨O0, x0, hO⟩ : ∃ O0 x0, O = O0 ++ [x0] :=
+    ⟨O.dropLast, O.getLast hOne, (List.dropLast_concat_getLast hOne).symm⟩
+  have hO0 : O0 ≠ [] := by intro e; rw [hO, e] at h2; simp at h2
+  have hinv := window_invalid bcf O b _ O [] hw (by simp) hn hwf hbc l hl
+    (unspentOf_subset_leaves O l ((mem_lost O b l).1 hl).1)
+  have hpre : ∀ Q S, Q ++ S = O → Q ≠ [] → pathOf tbl (tbl.length + 1) (tipOf Q) [] = some Q := by
+    intro Q S e hne
+    exact pathOf_prefix tbl _ Q hne S (tipOf O) (by rw [e]; exact h.old)
+  have hstep : ∀ d', validAt bcf d' [] (O0 ++ [x0]) = false →
+      fallback bcf tbl d' (tbl.length + 1) (tipOf (O0 ++ [x0])) [] =
+      fallback bcf tbl d' tbl.length (tipOf O0) ([] ++ spentLeaves (unspentOf O0) x0) := by
+    intro d' hv
+    exact fallback_step bcf tbl d' tbl.length [] O0 x0 hO0 (by rw [← hO]; exact h.old) hv
+  simp only [undo] at hinv
+  rw [hO] at hinv ⊢
+  rw [hstep _ hinv]
+  obtain ⟨Q', S, e, hne, hr⟩ := fallback_lands bcf tbl (extState (O0 ++ [x0]) b t.movesHHead t.movesHead k)
+    tbl.length O0 ([] ++ spentLeaves (unspentOf O0) x0) hO0
+    (fun Q' S e hne => hpre Q' (S ++ [x0]) (by rw [← List.append_assoc, e, hO]) hne)
+  refine ⟨tipOf Q', hr, ?_⟩
+  obtain ⟨Q'', z, hz⟩ : ∃ Q'' z, Q' = Q'' ++ [z] :=
+    ⟨Q'.dropLast, Q'.getLast hne, (List.dropLast_concat_getLast hne).symm⟩
+  have hzO0 : z ∈ O0 := by rw [← e, hz]; simp
+  have hids := pathOf_ids_nodup tbl _ b.id _ h.new
+  rw [hO, List.append_assoc, List.map_append, List.nodup_append] at hids
+  have hzid : z.id ∈ O0.map (·.id) := List.mem_map.2 ⟨z, hzO0, rfl⟩
+  rw [hz, tipOf_snoc, tipOf_snoc, List.dropLast_concat]
+  exact ⟨hids.2.2 z.id hzid x0.id (by simp), hids.2.2 z.id hzid b.id (by simp), hzid⟩
+
+/-- **Where exactly the node lands, all chains.** Split the old path as `M ++ x :: T` where `x` is the
+block that created the earliest-created leaf `b` spends (`x` created a lost leaf, no block of `M`
+did), `M ≠ []` (so `x` is not genesis) and every height from `x` up to the old tip commits to the
+bitmap. Then every crash point of the window reopens on the tip of `M` — the **parent of the
+block that created the earliest-created spent output** — having forgotten `x`, `T` and `b`. (This is
+what the real node shows at each of the enumerated crash points.) -/
+theorem txhashset_window_exact (bcf : Nat → Bool) (tbl O M T : List BlkInfo) (x b : BlkInfo) (t : Target)
+    (h : PlainExt tbl O b t) (hsplit : O = M ++ x :: T) (hM : M ≠ [])
+    (hwf : BlocksWF O) (hbo : b.outs.Nodup)
+    (hx : ∃ l ∈ lost O b, l ∈ leavesOf [x])
+    (hfirst : ∀ l ∈ lost O b, l ∉ leavesOf M)
+    (hbc : ∀ i, M.length ≤ i → i < O.length → bcf i = true)
+    (k : Nat) (hk : 12 ≤ k ∧ k ≤ 16) :
+    recover bcf tbl (crashAfter t (consistent O) blockSteps k) = .ok (tipOf M) := by
+  have hn := plainExt_leaves_nodup tbl O b t h hwf hbo
+  rw [crashAfter_ext t O b h.newPath h.forkLen k]
+  have hd := extState_window O b t.movesHHead t.movesHead k hk.1 hk.2
+  have hw := extState_inWindow O b t.movesHHead t.movesHead k hk.1
+  rw [recover_of_hdrOk bcf tbl _ (extState_hdrOk tbl O b t h _ _ k (by omega)), hd.1]
+  have hpre : ∀ Q S, Q ++ S = M ++ x :: T → Q ≠ [] → pathOf tbl (tbl.length + 1) (tipOf Q) [] = some Q := by
+    intro Q S e hne
+    exact pathOf_prefix tbl _ Q hne S (tipOf O) (by rw [e, ← hsplit]; exact h.old)
+  have hlen : (x :: T).length < tbl.length + 1 := by
+    have h1 := pathOf_length_le tbl _ _ _ h.old
+    have h2 : M.length ≠ 0 := fun e => hM (List.length_eq_zero_iff.mp e)
+    rw [hsplit] at h1
+    simp only [List.length_append, List.length_cons] at h1 ⊢
+    omega
+  have hwalk := fallback_walk bcf tbl (extState O b t.movesHHead t.movesHead k) M hM (x :: T) []
+    (tbl.length + 1) hlen hpre ?_ ?_
+  · have e : tipOf O = tipOf (M ++ x :: T) := by rw [hsplit]
+    rw [e]; simpa [undo] using hwalk
+  · -- every candidate that still contains `x` fails validation
+    intro T1 y T2 e
+    obtain ⟨l, hl, hlx⟩ := hx
+    have hxQ : x ∈ M ++ T1 ++ [y] := by
+      cases T1 with
+      | nil => simp at e; simp [e.1]
+      | cons z T1' => simp at e; simp [e.1]
+    have hlQ : l ∈ leavesOf (M ++ T1 ++ [y]) := by
+      obtain ⟨z, hz, h1, h2⟩ := (mem_leavesOf [x] l).1 hlx
+      simp at hz; subst hz
+      exact (mem_leavesOf _ l).2 ⟨z, hxQ, h1, h2⟩
+    have hQR : (M ++ T1 ++ [y]) ++ (T2 ++ []) = O := by rw [hsplit, e]; simp
+    apply window_invalid bcf O b _ _ _ hw hQR hn hwf _ l hl hlQ
+    apply hbc
+    · simp
+    · rw [← hQR]; simp
+  · right
+    exact window_valid bcf O b _ M (x :: T ++ []) hw (by rw [hsplit]; simp) hn hwf hfirst
+
+-- non-vacuity on the witness chain: b8 spends o6, created by b6 = `x`; `M` = b0..b5, `T` = [b7]
+example : recover bc tbl9 (crashAfter tgt9 (consistent old8) blockSteps 14) = .ok 5 :=
+  txhashset_window_exact bc tbl9 old8 (tbl9.take 6) [blk 7 []] (blk 6 []) (blk 8 [6]) tgt9
+    ⟨by decide, by decide, by decide, by decide⟩ (by decide) (by decide)
+    ⟨by decide, by decide⟩ (by decide) (by decide) (by decide)
+    (by intro i h1 h2; have : 6 ≤ i := h1; simp [bc, this]) 14 (by omega)
+example : ∃ a, recover bc tbl9 (crashAfter tgt9 (consistent old8) blockSteps 12) = .ok a ∧
+    a ≠ tipOf old8 ∧ a ≠ (blk 8 [6]).id ∧ a ∈ old8.dropLast.map (·.id) :=
+  txhashset_window_violates_all bc tbl9 old8 (blk 8 [6]) tgt9
+    ⟨by decide, by decide, by decide, by decide⟩ (by decide) ⟨by decide, by decide⟩ (by decide)
+    (by decide) (by decide) 12 (by omega)
+
+/-- **General form of the walk in the window, all chains, any bitmap-commitment function.** The
+fallback loop stops at the longest prefix `M` of the old path that is genesis, or whose header does
+not commit to the bitmap, or that contains the creation of no lost leaf — provided every longer
+prefix commits to the bitmap and contains the creation of a lost leaf. -/
+theorem txhashset_window_general (bcf : Nat → Bool) (tbl O M T : List BlkInfo) (b : BlkInfo) (t : Target)
+    (h : PlainExt tbl O b t) (hsplit : O = M ++ T) (hM : M ≠ [])
+    (hwf : BlocksWF O) (hbo : b.outs.Nodup)
+    (hstop : M.length ≤ 1 ∨ bcf (M.length - 1) = false ∨ ∀ l ∈ lost O b, l ∉ leavesOf M)
+    (habove : ∀ T1 y T2, T = T1 ++ y :: T2 →
+      bcf (M.length + T1.length) = true ∧ ∃ l ∈ lost O b, l ∈ leavesOf (M ++ T1 ++ [y]))
+    (k : Nat) (hk : 12 ≤ k ∧ k ≤ 16) :
+    recover bcf tbl (crashAfter t (consistent O) blockSteps k) = .ok (tipOf M) := by
+  have hn := plainExt_leaves_nodup tbl O b t h hwf hbo
+  rw [crashAfter_ext t O b h.newPath h.forkLen k]
+  have hd := extState_window O b t.movesHHead t.movesHead k hk.1 hk.2
+  have hw := extState_inWindow O b t.movesHHead t.movesHead k hk.1
+  rw [recover_of_hdrOk bcf tbl _ (extState_hdrOk tbl O b t h _ _ k (by omega)), hd.1]
+  have hpre : ∀ Q S, Q ++ S = M ++ T → Q ≠ [] → pathOf tbl (tbl.length + 1) (tipOf Q) [] = some Q := by
+    intro Q S e hne
+    exact pathOf_prefix tbl _ Q hne S (tipOf O) (by rw [e, ← hsplit]; exact h.old)
+  have hlen : T.length < tbl.length + 1 := by
+    have h1 := pathOf_length_le tbl _ _ _ h.old
+    have h2 : M.length ≠ 0 := fun e => hM (List.length_eq_zero_iff.mp e)
+    rw [hsplit] at h1
+    simp only [List.length_append] at h1
+    omega
+  have hwalk := fallback_walk bcf tbl (extState O b t.movesHHead t.movesHead k) M hM T []
+    (tbl.length + 1) hlen hpre ?_ ?_
+  · have e : tipOf O = tipOf (M ++ T) := by rw [hsplit]
+    rw [e]; simpa [undo] using hwalk
+  · intro T1 y T2 e
+    obtain ⟨hb, l, hl, hlQ⟩ := habove T1 y T2 e
+    have hQR : (M ++ T1 ++ [y]) ++ (T2 ++ []) = O := by rw [hsplit, e]; simp
+    apply window_invalid bcf O b _ _ _ hw hQR hn hwf _ l hl hlQ
+    have : (M ++ T1 ++ [y]).length - 1 = M.length + T1.length := by simp
+    rw [this]; exact hb
+  · have hQR : M ++ (T ++ []) = O := by rw [hsplit]; simp
+    rcases hstop with h1 | h1 | h1
+    · exact Or.inl h1
+    · exact Or.inr (validAt_true_of_not_bc bcf _ _ M (hw.files M _ hQR) h1)
+    · exact Or.inr (window_valid bcf O b _ M (T ++ []) hw hQR hn hwf h1)
+
+/-- **Before the bitmap is committed (header version < 3): the wrong state is accepted, all
+chains.** If the old tip's header does not commit to the bitmap, every crash point of the window
+reopens on the old tip — with a leaf set from which the outputs `b` spends are silently missing
+although they are unspent on the reopened chain. -/
+theorem txhashset_window_precommit_silent (bcf : Nat → Bool) (tbl O : List BlkInfo) (b : BlkInfo) (t : Target)
+    (h : PlainExt tbl O b t) (hwf : BlocksWF O) (hbo : b.outs.Nodup)
+    (hbc : bcf (O.length - 1) = false) (k : Nat) (hk : 12 ≤ k ∧ k ≤ 16) :
+    let d := crashAfter t (consistent O) blockSteps k
+    recover bcf tbl d = .ok (tipOf O) ∧ ∀ l ∈ lost O b, l ∈ unspentOf O ∧ l ∉ d.leaf := by
+  simp only
+  refine ⟨?_, ?_⟩
+  · exact txhashset_window_general bcf tbl O O [] b t h (by simp) (pathOf_ne_nil tbl _ _ O h.old) hwf hbo
+      (Or.inr (Or.inl hbc)) (by intro T1 y T2 e; simp at e) k hk
+  · intro l hl
+    have hn := plainExt_leaves_nodup tbl O b t h hwf hbo
+    rw [crashAfter_ext t O b h.newPath h.forkLen k]
+    have hd := extState_window O b t.movesHHead t.movesHead k hk.1 hk.2
+    obtain ⟨hu, hnot⟩ := (mem_lost O b l).1 hl
+    refine ⟨hu, ?_⟩
+    rw [hd.2, window_leaf_mem O b hn l (unspentOf_subset_leaves O l hu)]
+    exact hnot
+
+/-- **A spent genesis output walks the node back to genesis.** If `b` spends a leaf created by the
+first block of the old path and every later height commits to the bitmap, every crash point of the
+window reopens on genesis. -/
+theorem txhashset_window_to_genesis (bcf : Nat → Bool) (tbl O T : List BlkInfo) (g b : BlkInfo) (t : Target)
+    (h : PlainExt tbl O b t) (hsplit : O = g :: T)
+    (hwf : BlocksWF O) (hbo : b.outs.Nodup)
+    (hg : ∃ l ∈ lost O b, l ∈ leavesOf [g])
+    (hbc : ∀ i, 1 ≤ i → i < O.length → bcf i = true)
+    (k : Nat) (hk : 12 ≤ k ∧ k ≤ 16) :
+    recover bcf tbl (crashAfter t (consistent O) blockSteps k) = .ok g.id := by
+  have := txhashset_window_general bcf tbl O [g] T b t h (by rw [hsplit]; simp) (by simp) hwf hbo
+    (Or.inl (by simp)) ?_ k hk
+  · simpa [tipOf] using this
+  · intro T1 y T2 e
+    refine ⟨hbc _ (by simp) (by rw [hsplit, e]; simp; omega), ?_⟩
+    obtain ⟨l, hl, hlg⟩ := hg
+    refine ⟨l, hl, ?_⟩
+    rw [List.append_assoc, leavesOf_append]
+    exact List.mem_append_left _ hlg
+
+-- non-vacuity: on the witness chain with NO height committing to the bitmap the window reopens on
+-- the old tip b7 with o6 missing from the leaf set
+example : recover (fun _ => false) tbl9 (crashAfter tgt9 (consistent old8) blockSteps 12) = .ok 7 ∧
+    ∀ l ∈ lost old8 (blk 8 [6]), l ∈ unspentOf old8 ∧
+      l ∉ (crashAfter tgt9 (consistent old8) blockSteps 12).leaf :=
+  txhashset_window_precommit_silent (fun _ => false) tbl9 old8 (blk 8 [6]) tgt9
+    ⟨by decide, by decide, by decide, by decide⟩ ⟨by decide, by decide⟩ (by decide) rfl 12 (by omega)
+example : (6, 6) ∈ lost old8 (blk 8 [6]) := by decide
+-- a block spending the genesis output: b2 spends o0 on b0-b1
+def tblG : List BlkInfo := [blk 0 [], blk 1 [], blk 2 [0]]
+def tgtG : Target := { newPath := tblG, forkLen := 2, movesHHead := true, movesHead := true }
+example : recover (fun _ => true) tblG (crashAfter tgtG (consistent (tblG.take 2)) blockSteps 13) = .ok 0 :=
+  txhashset_window_to_genesis (fun _ => true) tblG (tblG.take 2) [blk 1 []] (blk 0 []) (blk 2 [0]) tgtG
+    ⟨by decide, by decide, by decide, by decide⟩ (by decide) ⟨by decide, by decide⟩ (by decide)
+    (by decide) (by intros; rfl) 13 (by omega)
+
+/-! ### Compaction (task 4; model `Model/CrashCompact.lean`)
+
+Durable steps of `Chain::compact`: for the output MMR and then the range-proof MMR — hash file
+removed, compacted hash file renamed into place, data file removed, compacted data file renamed
+into place, prune list renamed, leaf set renamed — then the LMDB commit that moves the tail and
+deletes old blocks (13 steps). `recoverC` = `recover` with coherence of the compacted files and
+deleted blocks taken into account. The model agrees with the real node on all 22 crash points of
+the `compaction` scenario and all 65 of `compaction-then-block` of the recorded run. -/
+
+/-- witness chain for compaction: b3 spends o1, so a compaction with its horizon at height 5
+prunes the leaf (1, o1) -/
+def tblC : List BlkInfo :=
+  [blk 0 [], blk 1 [], blk 2 [], blk 3 [1], blk 4 [], blk 5 [], blk 6 [], blk 7 [], blk 8 []]
+def ctgt : CTarget := { newPrun := prunedAt tblC 5, newTail := 5 }
+
+/-- **Negation (interrupted compaction).** Killing a first compaction between the removal of the
+output (or range-proof) hash file and the rename of the matching prune list makes the node reopen
+on GENESIS (every stored block is forgotten), although the chain had 9 blocks. -/
+theorem compaction_interrupted_witness :
+    prunedAt tblC 5 = [(1, 1)] ∧
+    (∀ k, (1 ≤ k ∧ k ≤ 4) ∨ (7 ≤ k ∧ k ≤ 10) →
+      recoverC bc tblC (crashAfterC ctgt (consistentC tblC [] 0) k) = .ok 0) ∧
+    (∀ k, k = 0 ∨ k = 5 ∨ k = 6 ∨ k = 11 ∨ k = 12 ∨ k = 13 →
+      recoverC bc tblC (crashAfterC ctgt (consistentC tblC [] 0) k) = .ok 8) := by
+  refine ⟨by decide, ?_, ?_⟩
+  · intro k hk
+    have : k = 1 ∨ k = 2 ∨ k = 3 ∨ k = 4 ∨ k = 7 ∨ k = 8 ∨ k = 9 ∨ k = 10 := by omega
+    rcases this with rfl | rfl | rfl | rfl | rfl | rfl | rfl | rfl <;> decide
+  · intro k hk
+    rcases hk with rfl | rfl | rfl | rfl | rfl | rfl <;> decide
+
+/-- **`recoverC` extends `recover` conservatively**: on a node that never compacted (coherent
+files, nothing deleted) the two coincide, so every theorem above is also a theorem about `recoverC`. -/
+theorem recoverC_conservative (bcf : Nat → Bool) (tbl : List BlkInfo) (d : Durable) (prun : List Leaf) :
+    recoverC bcf tbl { base := d, out := PFiles.clean prun, rp := PFiles.clean prun, tail := 0 } =
+      recover bcf tbl d :=
+  recoverC_eq_recover bcf tbl _ (by simp [PFiles.coherent, PFiles.clean])
+    (by simp [PFiles.coherent, PFiles.clean]) rfl
+
+/-- **Safe steps of a compaction, all chains.** Before the first removal, between the output prune
+list rename and the range-proof hash removal (`k = 5, 6`), and from the range-proof prune list rename
+on (`k ≥ 11`, including the final commit) the node reopens on its head — for every chain, every
+old prune list / tail and every compaction target. -/
+theorem compaction_safe_steps_all (bcf : Nat → Bool) (tbl O : List BlkInfo) (prun : List Leaf) (tail : Nat)
+    (t : CTarget) (hO : pathOf tbl (tbl.length + 1) (tipOf O) [] = some O)
+    (k : Nat) (hk : k = 0 ∨ k = 5 ∨ k = 6 ∨ 11 ≤ k) :
+    recoverC bcf tbl (crashAfterC t (consistentC O prun tail) k) = .ok (tipOf O) := by
+  rw [crashAfterC_eq]
+  obtain ⟨h1, h2⟩ := cState_coherent t O prun tail k hk
+  exact recoverC_of_agrees bcf tbl O _ hO h1 h2 (consistent_hdrOk tbl O hO) (consistent_agrees O)
+
+/-- **Interrupted first compaction, all chains.** On a node that has not deleted blocks yet
+(`tail ≤ 1`) with at least two blocks, a process death while a hash or data file is absent
+(`k = 1, 3, 7, 9`) or — if the compaction prunes anything new — while a compacted file sits beside
+the stale prune list (`k = 2, 4, 8, 10`) makes the node reopen on genesis, which is not its head. -/
+theorem compaction_interrupted_first_all (bcf : Nat → Bool) (tbl T : List BlkInfo) (g : BlkInfo)
+    (prun : List Leaf) (tail : Nat) (t : CTarget)
+    (hO : pathOf tbl (tbl.length + 1) (tipOf (g :: T)) [] = some (g :: T)) (hT : T ≠ []) (ht : tail ≤ 1)
+    (k : Nat) (hk : k = 1 ∨ k = 3 ∨ k = 7 ∨ k = 9 ∨ (t.newPrun ≠ prun ∧ (k = 2 ∨ k = 4 ∨ k = 8 ∨ k = 10))) :
+    recoverC bcf tbl (crashAfterC t (consistentC (g :: T) prun tail) k) = .ok g.id ∧
+      g.id ≠ tipOf (g :: T) := by
+  have hk13 : ¬ 13 ≤ k := by omega
+  refine ⟨?_, ?_⟩
+  · rw [crashAfterC_eq]
+    have hinc := cState_incoherent t (g :: T) prun tail k hk
+    rw [recoverC_of_hdrOk bcf tbl _ (consistent_hdrOk tbl _ hO)]
+    have hhead : (cState t (consistentC (g :: T) prun tail) k).base.dbHead = tipOf ([g] ++ T) := by
+      simp [cState, consistentC, consistent, tipOf]
+    have hpre : ∀ Q S, Q ++ S = [g] ++ T → Q ≠ [] → pathOf tbl (tbl.length + 1) (tipOf Q) [] = some Q := by
+      intro Q S e hne
+      exact pathOf_prefix tbl _ Q hne S (tipOf (g :: T)) (by rw [e]; exact hO)
+    have hlen : T.length < tbl.length + 1 := by
+      have := pathOf_length_le tbl _ _ _ hO
+      simp at this; omega
+    have hwalk := fallbackC_walk bcf tbl (cState t (consistentC (g :: T) prun tail) k) [g] (by simp)
+      (.ok g.id) (by simp [cState, consistentC, hk13]; exact ht) T [] (tbl.length + 1) hlen hpre
+      (fun T1 x T2 _ => validAtC_of_incoherent bcf _ _ _ hinc)
+      (fun f => by
+        have := fallbackC_stop bcf tbl (cState t (consistentC (g :: T) prun tail) k) f (tipOf [g])
+          (undo [g] (T ++ [])) [g] (hpre [g] T rfl (by simp)) (Or.inl (by simp))
+        simpa [tipOf] using this)
+    rw [hhead]; simpa [undo] using hwalk
+  · obtain ⟨T0, z, hz⟩ : ∃ T0 z, T = T0 ++ [z] :=
+      ⟨T.dropLast, T.getLast hT, (List.dropLast_concat_getLast hT).symm⟩
+    have hids := pathOf_ids_nodup tbl _ _ _ hO
+    rw [hz, List.map_cons, List.nodup_cons] at hids
+    have : tipOf (g :: (T0 ++ [z])) = z.id := by
+      rw [← List.cons_append, tipOf_snoc]
+    rw [hz, this]
+    intro e
+    apply hids.1
+    rw [e]; simp
+
+/-- **Interrupted repeated compaction (model prediction, not among the enumerated scenarios).** On a
+node that already deleted the blocks below `tail ≥ 2`, the same crash points make `Chain::init`
+FAIL with a store error: the fallback loop needs a deleted block before it finds a valid state. -/
+theorem compaction_interrupted_again_all (bcf : Nat → Bool) (tbl M T : List BlkInfo)
+    (prun : List Leaf) (t : CTarget)
+    (hO : pathOf tbl (tbl.length + 1) (tipOf (M ++ T)) [] = some (M ++ T)) (h2 : 2 ≤ M.length)
+    (k : Nat) (hk : k = 1 ∨ k = 3 ∨ k = 7 ∨ k = 9 ∨ (t.newPrun ≠ prun ∧ (k = 2 ∨ k = 4 ∨ k = 8 ∨ k = 10))) :
+    recoverC bcf tbl (crashAfterC t (consistentC (M ++ T) prun M.length) k) = .openFail .storeErr := by
+  have hk13 : ¬ 13 ≤ k := by omega
+  have hM : M ≠ [] := by intro e; rw [e] at h2; simp at h2
+  rw [crashAfterC_eq]
+  have hinc := cState_incoherent t (M ++ T) prun M.length k hk
+  rw [recoverC_of_hdrOk bcf tbl _ (consistent_hdrOk tbl _ hO)]
+  have hhead : (cState t (consistentC (M ++ T) prun M.length) k).base.dbHead = tipOf (M ++ T) := by
+    simp [cState, consistentC, consistent, tipOf]
+  have htail : (cState t (consistentC (M ++ T) prun M.length) k).tail = M.length := by
+    simp [cState, consistentC, hk13]
+  have hpre : ∀ Q S, Q ++ S = M ++ T → Q ≠ [] → pathOf tbl (tbl.length + 1) (tipOf Q) [] = some Q := by
+    intro Q S e hne
+    exact pathOf_prefix tbl _ Q hne S (tipOf (M ++ T)) (by rw [e]; exact hO)
+  have hlen : T.length < tbl.length + 1 := by
+    have := pathOf_length_le tbl _ _ _ hO
+    simp at this; omega
+  have hwalk := fallbackC_walk bcf tbl (cState t (consistentC (M ++ T) prun M.length) k) M hM
+    (.openFail .storeErr) (by rw [htail]; exact Nat.le_refl _) T [] (tbl.length + 1) hlen hpre
+    (fun T1 x T2 _ => validAtC_of_incoherent bcf _ _ _ hinc)
+    (fun f => fallbackC_brick bcf tbl _ f (tipOf M) _ M (hpre M T rfl hM) (by omega)
+      (validAtC_of_incoherent bcf _ _ _ hinc) (by rw [htail]; omega))
+  rw [hhead]; simpa [undo] using hwalk
+
+/-! #### Block acceptance on a compacted node (known finding C09-compact-block-window) -/
+
+/-- **Safe steps and completion on a compacted node, all chains**: as on a fresh node. -/
+theorem compacted_safe_prefix_all (bcf : Nat → Bool) (tbl O : List BlkInfo) (b : BlkInfo) (t : Target)
+    (prun : List Leaf) (tail : Nat)
+    (h : PlainExt tbl O b t) (k : Nat) (hk : k ≤ 2 ∨ (5 ≤ k ∧ k ≤ 11)) :
+    recoverC bcf tbl (crashAfterCB t (consistentC O prun tail) blockSteps k) = .ok (tipOf O) := by
+  obtain ⟨hb, ho, hr, _⟩ := crashAfterCB_base t (consistentC O prun tail) blockSteps k
+  obtain ⟨c1, c2⟩ := consistentC_coherent O prun tail
+  have hbase : (crashAfterCB t (consistentC O prun tail) blockSteps k).base =
+      extState O b t.movesHHead t.movesHead k := by
+    rw [hb]; exact crashAfter_ext t O b h.newPath h.forkLen k
+  apply recoverC_of_agrees bcf tbl O _ h.old (by rw [ho]; exact c1) (by rw [hr]; exact c2)
+  · rw [hbase]; exact extState_hdrOk tbl O b t h _ _ k (by omega)
+  · rw [hbase]; exact extState_agrees O b _ _ k (by omega)
+
+/-- **The txhashset window on a compacted node bricks it, all chains.** If `b` spends a leaf created
+by a block `x` whose height is below the tail (its creation is older than the blocks the node
+kept — the normal case for an old output), and the heights from the tail's parent up commit to the
+bitmap, then every crash point of the window makes `Chain::init` FAIL with a store error: the
+fallback loop walks down to the tail, still finds the leaf missing, and needs a deleted block.
+`O = M ++ x :: (T1 ++ T2)` with the tail at height `|M| + 1 + |T1|`. -/
+theorem compacted_window_bricks_all (bcf : Nat → Bool) (tbl O M T1 T2 : List BlkInfo) (x b : BlkInfo)
+    (t : Target) (prun : List Leaf) (tail : Nat)
+    (h : PlainExt tbl O b t) (hsplit : O = M ++ x :: (T1 ++ T2))
+    (htail : tail = M.length + 1 + T1.length) (ht2 : 2 ≤ tail)
+    (hwf : BlocksWF O) (hbo : b.outs.Nodup)
+    (hx : ∃ l ∈ lost O b, l ∈ leavesOf [x])
+    (hbc : ∀ i, tail - 1 ≤ i → i < O.length → bcf i = true)
+    (k : Nat) (hk : 12 ≤ k ∧ k ≤ 16) :
+    recoverC bcf tbl (crashAfterCB t (consistentC O prun tail) blockSteps k) = .openFail .storeErr := by
+  have hn := plainExt_leaves_nodup tbl O b t h hwf hbo
+  obtain ⟨hb, ho, hr, htl⟩ := crashAfterCB_base t (consistentC O prun tail) blockSteps k
+  obtain ⟨c1, c2⟩ := consistentC_coherent O prun tail
+  have hbase : (crashAfterCB t (consistentC O prun tail) blockSteps k).base =
+      extState O b t.movesHHead t.movesHead k := by
+    rw [hb]; exact crashAfter_ext t O b h.newPath h.forkLen k
+  have hco : (crashAfterCB t (consistentC O prun tail) blockSteps k).out.coherent = true := by rw [ho]; exact c1
+  have hcr : (crashAfterCB t (consistentC O prun tail) blockSteps k).rp.coherent = true := by rw [hr]; exact c2
+  have htl' : (crashAfterCB t (consistentC O prun tail) blockSteps k).tail = tail := by
+    rw [htl]; simp [consistentC]
+  have hd := extState_window O b t.movesHHead t.movesHead k hk.1 hk.2
+  have hw := extState_inWindow O b t.movesHHead t.movesHead k hk.1
+  rw [recoverC_of_hdrOk bcf tbl _ (by rw [hbase]; exact extState_hdrOk tbl O b t h _ _ k (by omega)),
+    hbase, hd.1]
+  -- the level at which the loop gives up: M' = M ++ x :: T1 (length = tail)
+  have hM'len : (M ++ x :: T1).length = tail := by simp [htail]; omega
+  have hsplit' : O = (M ++ x :: T1) ++ T2 := by rw [hsplit]; simp
+  have hpre : ∀ Q S, Q ++ S = (M ++ x :: T1) ++ T2 → Q ≠ [] →
+      pathOf tbl (tbl.length + 1) (tipOf Q) [] = some Q := by
+    intro Q S e hne
+    exact pathOf_prefix tbl _ Q hne S (tipOf O) (by rw [e, ← hsplit']; exact h.old)
+  have hlen : T2.length < tbl.length + 1 := by
+    have h1 := pathOf_length_le tbl _ _ _ h.old
+    rw [hsplit'] at h1
+    simp only [List.length_append, List.length_cons] at h1
+    omega
+  obtain ⟨l, hl, hlx⟩ := hx
+  have hxmem : ∀ Q, x ∈ Q → l ∈ leavesOf Q := by
+    intro Q hxQ
+    obtain ⟨z, hz, h1, h2⟩ := (mem_leavesOf [x] l).1 hlx
+    simp at hz; subst hz
+    exact (mem_leavesOf _ l).2 ⟨z, hxQ, h1, h2⟩
+  have hinvalid : ∀ Q R, Q ++ R = O → x ∈ Q → tail ≤ Q.length →
+      validAtC bcf (crashAfterCB t (consistentC O prun tail) blockSteps k) (undo Q R) Q = false := by
+    intro Q R hQR hxQ hQlen
+    rw [validAtC_of_coherent bcf _ _ _ hco hcr, hbase]
+    apply window_invalid bcf O b _ Q R hw hQR hn hwf _ l hl (hxmem Q hxQ)
+    apply hbc
+    · omega
+    · rw [← hQR]; simp; omega
+  have hM'ne : M ++ x :: T1 ≠ [] := by simp
+  have hwalk := fallbackC_walk bcf tbl (crashAfterCB t (consistentC O prun tail) blockSteps k)
+    (M ++ x :: T1) hM'ne (.openFail .storeErr) (by rw [htl', hM'len]; exact Nat.le_refl _)
+    T2 [] (tbl.length + 1) hlen hpre ?_ ?_
+  · have e : tipOf O = tipOf ((M ++ x :: T1) ++ T2) := by rw [hsplit']
+    rw [e]; simpa [undo] using hwalk
+  · intro U1 y U2 e
+    apply hinvalid _ _ (by rw [hsplit', e]; simp) (by simp)
+    simp only [List.length_append, List.length_cons, List.length_nil] at hM'len ⊢
+    omega
+  · intro f
+    apply fallbackC_brick bcf tbl _ f _ _ (M ++ x :: T1) (hpre _ T2 rfl hM'ne)
+    · rw [hM'len]; omega
+    · exact hinvalid _ _ (by rw [hsplit']; simp) (by simp) (by rw [hM'len]; exact Nat.le_refl _)
+    · rw [htl', hM'len]; omega
+
+/-- … while a spent leaf whose creating block (and everything above it) is still stored behaves as on
+a fresh node: the loop lands on the parent of the creating block. -/
+theorem compacted_window_lands_all (bcf : Nat → Bool) (tbl O M T : List BlkInfo) (x b : BlkInfo) (t : Target)
+    (prun : List Leaf) (tail : Nat)
+    (h : PlainExt tbl O b t) (hsplit : O = M ++ x :: T) (hM : M ≠ []) (htail : tail ≤ M.length)
+    (hwf : BlocksWF O) (hbo : b.outs.Nodup)
+    (hx : ∃ l ∈ lost O b, l ∈ leavesOf [x])
+    (hfirst : ∀ l ∈ lost O b, l ∉ leavesOf M)
+    (hbc : ∀ i, M.length ≤ i → i < O.length → bcf i = true)
+    (k : Nat) (hk : 12 ≤ k ∧ k ≤ 16) :
+    recoverC bcf tbl (crashAfterCB t (consistentC O prun tail) blockSteps k) = .ok (tipOf M) := by
+  have hn := plainExt_leaves_nodup tbl O b t h hwf hbo
+  obtain ⟨hb, ho, hr, htl⟩ := crashAfterCB_base t (consistentC O prun tail) blockSteps k
+  obtain ⟨c1, c2⟩ := consistentC_coherent O prun tail
+  have hbase : (crashAfterCB t (consistentC O prun tail) blockSteps k).base =
+      extState O b t.movesHHead t.movesHead k := by
+    rw [hb]; exact crashAfter_ext t O b h.newPath h.forkLen k
+  have hco : (crashAfterCB t (consistentC O prun tail) blockSteps k).out.coherent = true := by rw [ho]; exact c1
+  have hcr : (crashAfterCB t (consistentC O prun tail) blockSteps k).rp.coherent = true := by rw [hr]; exact c2
+  have htl' : (crashAfterCB t (consistentC O prun tail) blockSteps k).tail = tail := by
+    rw [htl]; simp [consistentC]
+  have hd := extState_window O b t.movesHHead t.movesHead k hk.1 hk.2
+  have hw := extState_inWindow O b t.movesHHead t.movesHead k hk.1
+  rw [recoverC_of_hdrOk bcf tbl _ (by rw [hbase]; exact extState_hdrOk tbl O b t h _ _ k (by omega)),
+    hbase, hd.1]
+  have hpre : ∀ Q S, Q ++ S = M ++ x :: T → Q ≠ [] → pathOf tbl (tbl.length + 1) (tipOf Q) [] = some Q := by
+    intro Q S e hne
+    exact pathOf_prefix tbl _ Q hne S (tipOf O) (by rw [e, ← hsplit]; exact h.old)
+  have hlen : (x :: T).length < tbl.length + 1 := by
+    have h1 := pathOf_length_le tbl _ _ _ h.old
+    have h2 : M.length ≠ 0 := fun e => hM (List.length_eq_zero_iff.mp e)
+    rw [hsplit] at h1
+    simp only [List.length_append, List.length_cons] at h1 ⊢
+    omega
+  have hwalk := fallbackC_walk bcf tbl (crashAfterCB t (consistentC O prun tail) blockSteps k) M hM
+    (.ok (tipOf M)) (by rw [htl']; exact htail) (x :: T) [] (tbl.length + 1) hlen hpre ?_ ?_
+  · have e : tipOf O = tipOf (M ++ x :: T) := by rw [hsplit]
+    rw [e]; simpa [undo] using hwalk
+  · intro T1 y T2 e
+    obtain ⟨l, hl, hlx⟩ := hx
+    have hxQ : x ∈ M ++ T1 ++ [y] := by
+      cases T1 with
+      | nil => simp at e; simp [e.1]
+      | cons z T1' => simp at e; simp [e.1]
+    have hlQ : l ∈ leavesOf (M ++ T1 ++ [y]) := by
+      obtain ⟨z, hz, h1, h2⟩ := (mem_leavesOf [x] l).1 hlx
+      simp at hz; subst hz
+      exact (mem_leavesOf _ l).2 ⟨z, hxQ, h1, h2⟩
+    have hQR : (M ++ T1 ++ [y]) ++ (T2 ++ []) = O := by rw [hsplit, e]; simp
+    rw [validAtC_of_coherent bcf _ _ _ hco hcr, hbase]
+    apply window_invalid bcf O b _ _ _ hw hQR hn hwf _ l hl hlQ
+    apply hbc
+    · simp
+    · rw [← hQR]; simp
+  · intro f
+    apply fallbackC_stop bcf tbl _ f _ _ M (hpre M (x :: T) rfl hM)
+    right
+    rw [validAtC_of_coherent bcf _ _ _ hco hcr, hbase]
+    exact window_valid bcf O b _ M (x :: T ++ []) hw (by rw [hsplit]; simp) hn hwf hfirst
+
+-- non-vacuity. Compaction: the general theorems on the witness chain `tblC`
+example : recoverC bc tblC (crashAfterC ctgt (consistentC tblC [] 0) 4) = .ok 0 ∧ (0 : Nat) ≠ tipOf tblC :=
+  compaction_interrupted_first_all bc tblC (tblC.drop 1) (blk 0 []) [] 0 ctgt (by decide) (by decide)
+    (by decide) 4 (Or.inr (Or.inr (Or.inr (Or.inr ⟨by decide, Or.inr (Or.inl rfl)⟩))))
+example : recoverC bc tblC (crashAfterC ctgt (consistentC tblC [(0, 0)] 5) 8) = .openFail .storeErr :=
+  compaction_interrupted_again_all bc tblC (tblC.take 5) (tblC.drop 5) [(0, 0)] ctgt (by decide) (by decide)
+    8 (Or.inr (Or.inr (Or.inr (Or.inr ⟨by decide, Or.inr (Or.inr (Or.inl rfl))⟩))))
+-- the witness block acceptance on a compacted node with its tail at height 7: b8 spends o6, created
+-- by b6, below the tail ⇒ the node does not open
+example : recoverC bc tbl9 (crashAfterCB tgt9 (consistentC old8 [] 7) blockSteps 12) = .openFail .storeErr :=
+  compacted_window_bricks_all bc tbl9 old8 (tbl9.take 6) [] [blk 7 []] (blk 6 []) (blk 8 [6]) tgt9 [] 7
+    ⟨by decide, by decide, by decide, by decide⟩ (by decide) (by decide) (by decide)
+    ⟨by decide, by decide⟩ (by decide) (by decide)
+    (by intro i h1 h2; have : 6 ≤ i := h1; simp [bc, this]) 12 (by omega)
+-- … and with the tail at height 5 the creating block is still stored: lands on b5 as on a fresh node
+example : recoverC bc tbl9 (crashAfterCB tgt9 (consistentC old8 [] 5) blockSteps 12) = .ok 5 :=
+  compacted_window_lands_all bc tbl9 old8 (tbl9.take 6) [blk 7 []] (blk 6 []) (blk 8 [6]) tgt9 [] 5
+    ⟨by decide, by decide, by decide, by decide⟩ (by decide) (by decide) (by decide)
+    ⟨by decide, by decide⟩ (by decide) (by decide) (by decide)
+    (by intro i h1 h2; have : 6 ≤ i := h1; simp [bc, this]) 12 (by omega)
+
+/-! ### A block that reorganises the body chain, every chain
+
+Old path `F ++ x :: O1`, new path `F ++ y :: N1` (`F` the common prefix, `x.id ≠ y.id`), head and
+header head move. Steps 2–5 are the header window (`block_reorg_header_window_bricks_all`). -/
+
+/-- **Reorganising block: where the old head survives and where the new one is reached.** Before
+the first file step and between the `header_head` commit and the output-file truncate (`k = 6, 7`)
+the node reopens on the old head; after the final commit on the new one. -/
+theorem block_reorg_ends_ok_all (bcf : Nat → Bool) (tbl F : List BlkInfo) (x : BlkInfo) (O1 : List BlkInfo)
+    (y : BlkInfo) (N1 : List BlkInfo) (t : Target) (h : BlockReorg tbl F x O1 y N1 t) (k : Nat) :
+    ((k ≤ 1 ∨ k = 6 ∨ k = 7) →
+      recover bcf tbl (crashAfter t (consistent (F ++ x :: O1)) blockSteps k) = .ok (tipOf (F ++ x :: O1))) ∧
+    (17 ≤ k →
+      recover bcf tbl (crashAfter t (consistent (F ++ x :: O1)) blockSteps k) = .ok (tipOf (F ++ y :: N1))) := by
+  rw [crashAfter_reorg t F (x :: O1) (y :: N1) h.newPath h.forkLen h.mvHH h.mvH k]
+  refine ⟨?_, ?_⟩
+  · intro hk
+    apply recover_of_agrees bcf tbl _ _ h.old
+    · rcases hk with hk | hk | hk
+      · have e2 : ¬ 2 ≤ k := by omega
+        have e3 : ¬ 3 ≤ k := by omega
+        have e4 : ¬ 4 ≤ k := by omega
+        have e5 : ¬ 5 ≤ k := by omega
+        have e6 : ¬ 6 ≤ k := by omega
+        exact ⟨by simp [reorgState, e2, e3, e4, e5], _, by simpa [reorgState, e6] using h.old,
+          by simp [reorgState, e4, e5]⟩
+      · subst hk
+        exact ⟨by simp [reorgState], _, by simpa [reorgState] using h.new, by simp [reorgState]⟩
+      · subst hk
+        exact ⟨by simp [reorgState], _, by simpa [reorgState] using h.new, by simp [reorgState]⟩
+    · have e8 : ¬ 8 ≤ k := by omega
+      have e9 : ¬ 9 ≤ k := by omega
+      have e10 : ¬ 10 ≤ k := by omega
+      have e11 : ¬ 11 ≤ k := by omega
+      have e12 : ¬ 12 ≤ k := by omega
+      have e13 : ¬ 13 ≤ k := by omega
+      have e14 : ¬ 14 ≤ k := by omega
+      have e15 : ¬ 15 ≤ k := by omega
+      have e16 : ¬ 16 ≤ k := by omega
+      have e17 : ¬ 17 ≤ k := by omega
+      refine ⟨by simp [reorgState, e17], by simp [reorgState, e12], ?_⟩
+      constructor <;> simp [reorgState, e8, e9, e10, e11, e13, e14, e15, e16]
+  · intro hk
+    have e : ∀ n, n ≤ 17 → n ≤ k := by intro n hn; omega
+    apply recover_of_agrees bcf tbl _ _ h.new
+    · exact ⟨by simp [reorgState, e], _, by simpa [reorgState, e] using h.new, by simp [reorgState, e]⟩
+    · refine ⟨by simp [reorgState, e], by simp [reorgState, e], ?_⟩
+      constructor <;> simp [reorgState, e]
+
+/-- **Reorganising block, output-file window: the node falls back to the fork point, all chains.**
+From the truncation of the output hash file to just before the leaf-set rename (`8 ≤ k ≤ 11`) the
+output files no longer hold the old fork beyond the fork point, so every old-fork candidate above
+it fails; the fork point itself validates (rewinding with the old fork's spent indices is exact).
+The node reopens on the last common block: an ancestor of both heads. -/
+theorem block_reorg_files_window_all (bcf : Nat → Bool) (tbl F : List BlkInfo) (x : BlkInfo) (O1 : List BlkInfo)
+    (y : BlkInfo) (N1 : List BlkInfo) (t : Target) (h : BlockReorg tbl F x O1 y N1 t)
+    (hwf : BlocksWF (F ++ x :: O1)) (hx : x.outs ≠ []) (k : Nat) (hk : 8 ≤ k ∧ k ≤ 11) :
+    recover bcf tbl (crashAfter t (consistent (F ++ x :: O1)) blockSteps k) = .ok (tipOf F) := by
+  rw [crashAfter_reorg t F (x :: O1) (y :: N1) h.newPath h.forkLen h.mvHH h.mvH k]
+  have hn : (leavesOf (F ++ x :: O1)).Nodup :=
+    leavesOf_nodup _ (pathOf_ids_nodup tbl _ _ _ h.old) hwf.outs
+  have e3 : 3 ≤ k := by omega
+  have e5 : 5 ≤ k := by omega
+  have e6 : 6 ≤ k := by omega
+  have e8 : 8 ≤ k := by omega
+  have e12 : ¬ 12 ≤ k := by omega
+  have e17 : ¬ 17 ≤ k := by omega
+  rw [recover_of_hdrOk bcf tbl _ ⟨by simp [reorgState, e3, e5], _, by simpa [reorgState, e6] using h.new,
+    by simp [reorgState, e5]⟩]
+  have hhead : (reorgState F (x :: O1) (y :: N1) k).dbHead = tipOf (F ++ x :: O1) := by
+    simp [reorgState, e17]
+  have hpre : ∀ Q S, Q ++ S = F ++ x :: O1 → Q ≠ [] → pathOf tbl (tbl.length + 1) (tipOf Q) [] = some Q := by
+    intro Q S e hne
+    exact pathOf_prefix tbl _ Q hne S _ (by rw [e]; exact h.old)
+  have hlen : (x :: O1).length < tbl.length + 1 := by
+    have h1 := pathOf_length_le tbl _ _ _ h.old
+    have h2 : F.length ≠ 0 := fun e => h.forkNe (List.length_eq_zero_iff.mp e)
+    simp only [List.length_append, List.length_cons] at h1 ⊢
+    omega
+  have hwalk := fallback_walk bcf tbl (reorgState F (x :: O1) (y :: N1) k) F h.forkNe (x :: O1) []
+    (tbl.length + 1) hlen hpre ?_ ?_
+  · rw [hhead]; simpa [undo] using hwalk
+  · intro T1 z T2 e
+    obtain ⟨Q1, hQ1⟩ : ∃ Q1, F ++ T1 ++ [z] = F ++ x :: Q1 := by
+      cases T1 with
+      | nil => simp at e; exact ⟨[], by simp [e.1]⟩
+      | cons w T1' => simp at e; exact ⟨T1' ++ [z], by simp [e.1]⟩
+    rw [hQ1]
+    apply validAt_false_of_outHash
+    apply outHash_mismatch F x Q1 (y :: N1) hx h.new_ids_ne
+    by_cases e9 : 9 ≤ k
+    · right; simp [reorgState, e9]
+    · left; simp [reorgState, e9, e8]
+  · right
+    have := fork_valid_old_leaf bcf F (x :: O1) (reorgState F (x :: O1) (y :: N1) k)
+      (reorgState_files F _ _ k F [] (by simp)) (by simp [reorgState, e12]) hn hwf
+    simpa using this
+
+/-- **Reorganising block, leaf-set window, all chains.** After the leaf-set rename and before the
+final commit (`12 ≤ k ≤ 16`) the leaf set is the new fork's while only the old fork's spent indices
+can be replayed. Every old-fork candidate above the fork point fails on the output files; from the
+fork point `F = M ++ TF` down, a candidate validates iff it contains the creation of no leaf that is
+unspent on the old path and missing from the new leaf set (`lostIn`), or its header does not commit
+to the bitmap. The loop stops at the longest such prefix `M` — possibly far below both heads. -/
+theorem block_reorg_leaf_window_all (bcf : Nat → Bool) (tbl M TF : List BlkInfo) (x : BlkInfo) (O1 : List BlkInfo)
+    (y : BlkInfo) (N1 : List BlkInfo) (t : Target) (h : BlockReorg tbl (M ++ TF) x O1 y N1 t) (hM : M ≠ [])
+    (hwfO : BlocksWF (M ++ TF ++ x :: O1)) (hwfN : BlocksWF (M ++ TF ++ y :: N1)) (hx : x.outs ≠ [])
+    (hstop : M.length ≤ 1 ∨ bcf (M.length - 1) = false ∨
+      ∀ l ∈ lostIn (M ++ TF ++ x :: O1) (unspentOf (M ++ TF ++ y :: N1)), l ∉ leavesOf M)
+    (habove : ∀ T1 z T2, TF = T1 ++ z :: T2 → bcf (M.length + T1.length) = true ∧
+      ∃ l ∈ lostIn (M ++ TF ++ x :: O1) (unspentOf (M ++ TF ++ y :: N1)), l ∈ leavesOf (M ++ T1 ++ [z]))
+    (k : Nat) (hk : 12 ≤ k ∧ k ≤ 16) :
+    recover bcf tbl (crashAfter t (consistent (M ++ TF ++ x :: O1)) blockSteps k) = .ok (tipOf M) := by
+  rw [crashAfter_reorg t (M ++ TF) (x :: O1) (y :: N1) h.newPath h.forkLen h.mvHH h.mvH k]
+  have hnO : (leavesOf (M ++ TF ++ x :: O1)).Nodup :=
+    leavesOf_nodup _ (pathOf_ids_nodup tbl _ _ _ h.old) hwfO.outs
+  have hnN : (leavesOf (M ++ TF ++ y :: N1)).Nodup :=
+    leavesOf_nodup _ (pathOf_ids_nodup tbl _ _ _ h.new) hwfN.outs
+  have e3 : 3 ≤ k := by omega
+  have e5 : 5 ≤ k := by omega
+  have e6 : 6 ≤ k := by omega
+  have e9 : 9 ≤ k := by omega
+  have e12 : 12 ≤ k := by omega
+  have e17 : ¬ 17 ≤ k := by omega
+  rw [recover_of_hdrOk bcf tbl _ ⟨by simp [reorgState, e3, e5], _, by simpa [reorgState, e6] using h.new,
+    by simp [reorgState, e5]⟩]
+  have hhead : (reorgState (M ++ TF) (x :: O1) (y :: N1) k).dbHead = tipOf (M ++ TF ++ x :: O1) := by
+    simp [reorgState, e17]
+  have hleaf : (reorgState (M ++ TF) (x :: O1) (y :: N1) k).leaf = unspentOf (M ++ TF ++ y :: N1) := by
+    simp [reorgState, e12]
+  have hpre : ∀ Q S, Q ++ S = M ++ TF ++ x :: O1 → Q ≠ [] → pathOf tbl (tbl.length + 1) (tipOf Q) [] = some Q := by
+    intro Q S e hne
+    exact pathOf_prefix tbl _ Q hne S _ (by rw [e]; exact h.old)
+  have hlenAll := pathOf_length_le tbl _ _ _ h.old
+  have hMlen : M.length ≠ 0 := fun e => hM (List.length_eq_zero_iff.mp e)
+  simp only [List.length_append, List.length_cons] at hlenAll
+  have hw : LeafWindow (M ++ TF) (reorgState (M ++ TF) (x :: O1) (y :: N1) k) :=
+    ⟨fun Q S e => reorgState_files (M ++ TF) _ _ k Q S e,
+     fun Q S e l hl hlQ => unspent_new_sound (M ++ TF) (y :: N1) hnN Q S e l (by rw [← hleaf]; exact hl) hlQ⟩
+  -- inner walk: from the fork point down to M
+  have hinner : fallback bcf tbl (reorgState (M ++ TF) (x :: O1) (y :: N1) k)
+      (tbl.length + 1 - (x :: O1).length) (tipOf (M ++ TF)) (undo (M ++ TF) (x :: O1)) = .ok (tipOf M) := by
+    apply fallback_walk bcf tbl _ M hM TF (x :: O1) _ (by simp only [List.length_cons]; omega)
+    · intro Q S e hne
+      exact hpre Q (S ++ x :: O1) (by rw [← List.append_assoc, e]) hne
+    · intro T1 z T2 e
+      obtain ⟨hb, l, hl, hlQ⟩ := habove T1 z T2 e
+      have hQS : (M ++ T1 ++ [z]) ++ T2 = M ++ TF := by rw [e]; simp
+      have hb' : bcf ((M ++ T1 ++ [z]).length - 1) = true := by
+        have : (M ++ T1 ++ [z]).length - 1 = M.length + T1.length := by simp
+        rw [this]; exact hb
+      exact leafwin_invalid bcf (M ++ TF) (x :: O1) _ _ T2 hQS hnO hwfO hb' l (by rw [hleaf]; exact hl) hlQ
+    · rcases hstop with h1 | h1 | h1
+      · exact Or.inl h1
+      · exact Or.inr (validAt_true_of_not_bc bcf _ _ M (hw.files M TF rfl) h1)
+      · exact Or.inr (leafwin_valid bcf (M ++ TF) (x :: O1) _ M TF hw rfl hnO hwfO (by rw [hleaf]; exact h1))
+  have hF : M ++ TF ≠ [] := h.forkNe
+  have hwalk := fallback_walk_r bcf tbl (reorgState (M ++ TF) (x :: O1) (y :: N1) k) (M ++ TF) hF
+    (.ok (tipOf M)) (x :: O1) [] (tbl.length + 1) (by simp only [List.length_cons]; omega) hpre ?_
+    (by simpa using hinner)
+  · rw [hhead]; simpa [undo] using hwalk
+  · intro T1 z T2 e
+    obtain ⟨Q1, hQ1⟩ : ∃ Q1, M ++ TF ++ T1 ++ [z] = M ++ TF ++ x :: Q1 := by
+      cases T1 with
+      | nil => simp at e; exact ⟨[], by simp [e.1]⟩
+      | cons w T1' => simp at e; exact ⟨T1' ++ [z], by simp [e.1]⟩
+    rw [hQ1]
+    apply validAt_false_of_outHash
+    apply outHash_mismatch (M ++ TF) x Q1 (y :: N1) hx h.new_ids_ne
+    right; simp [reorgState, e9]
+
+-- non-vacuity: a two-block fork off b5 of the witness chain replaced by a heavier block b9 on b5
+-- that spends o3 (unspent on both forks' common part): old path b0..b7, new path b0..b5,b9
+def tblR : List BlkInfo := old8 ++ [{ id := 9, parent := some 5, work := 20, outs := [9], ins := [3] }]
+def tgtR : Target :=
+  { newPath := old8.take 6 ++ [{ id := 9, parent := some 5, work := 20, outs := [9], ins := [3] }],
+    forkLen := 6, movesHHead := true, movesHead := true }
+example : BlockReorg tblR (old8.take 6) (blk 6 []) [blk 7 []]
+    { id := 9, parent := some 5, work := 20, outs := [9], ins := [3] } [] tgtR :=
+  ⟨by decide, by decide, by decide, by decide, by decide, by decide, rfl, rfl⟩
+example : recover bc tblR (crashAfter tgtR (consistent old8) blockSteps 9) = .ok 5 :=
+  block_reorg_files_window_all bc tblR (old8.take 6) (blk 6 []) [blk 7 []]
+    { id := 9, parent := some 5, work := 20, outs := [9], ins := [3] } [] tgtR
+    ⟨by decide, by decide, by decide, by decide, by decide, by decide, rfl, rfl⟩
+    ⟨by decide, by decide⟩ (by decide) 9 (by omega)
+-- leaf-set window: o3 (created by b3) is lost; heights ≥ 6 commit to the bitmap only, so the loop
+-- stops at b5 (height 5 does not commit): M = b0..b5, TF = []
+example : recover bc tblR (crashAfter tgtR (consistent old8) blockSteps 12) = .ok 5 :=
+  block_reorg_leaf_window_all bc tblR (old8.take 6) [] (blk 6 []) [blk 7 []]
+    { id := 9, parent := some 5, work := 20, outs := [9], ins := [3] } [] tgtR
+    ⟨by decide, by decide, by decide, by decide, by decide, by decide, rfl, rfl⟩ (by decide)
+    ⟨by decide, by decide⟩ ⟨by decide, by decide⟩ (by decide) (Or.inr (Or.inl (by decide)))
+    (by intro T1 z T2 e; simp at e) 12 (by omega)
+-- with every height committing to the bitmap the same crash walks back to b2, the parent of the block
+-- that created o3: M = b0..b2, TF = b3..b5
+example : recover (fun _ => true) tblR (crashAfter tgtR (consistent old8) blockSteps 12) = .ok 2 :=
+  block_reorg_leaf_window_all (fun _ => true) tblR (old8.take 3) [blk 3 [], blk 4 [], blk 5 []] (blk 6 []) [blk 7 []]
+    { id := 9, parent := some 5, work := 20, outs := [9], ins := [3] } [] tgtR
+    ⟨by decide, by decide, by decide, by decide, by decide, by decide, rfl, rfl⟩ (by decide)
+    ⟨by decide, by decide⟩ ⟨by decide, by decide⟩ (by decide) (Or.inr (Or.inr (by decide)))
+    (by
+      intro T1 z T2 e
+      refine ⟨rfl, (3, 3), by decide, ?_⟩
+      cases T1 with
+      | nil => simp at e; rw [← e.1]; decide
+      | cons w T1' =>
+        simp at e
+        rw [← e.1]
+        simp [leavesOf, blk])
+    12 (by omega)
 
 end GV.Props.C09
